@@ -415,6 +415,60 @@ def _conditions(node, loop):
     return names
 
 
+def check_loop_calls(repo, rep, fi, loop, label, eff):
+    """R06d: a function called once per element of an unordered set with
+    loop-invariant arguments must not write through those arguments --
+    otherwise what the first element does to them decides what the later
+    ones see."""
+    if isinstance(loop, ast.comprehension):
+        return
+    mod = fi.module
+    assigned = set()
+    for st in loop.body:
+        for n in ast.walk(st):
+            if isinstance(n, ast.Name) and isinstance(n.ctx, ast.Store):
+                assigned.add(n.id)
+    for x in ast.walk(loop.target):
+        if isinstance(x, ast.Name):
+            assigned.add(x.id)
+    for call in [c for st in loop.body for c in model.calls_in(st)]:
+        f = call.func
+        callee = None
+        if isinstance(f, ast.Attribute):
+            # method of the element: resolve by name among repo classes
+            cands = [m for ci in repo.all_classes()
+                     for nm, m in ci.methods.items() if nm == f.attr and
+                     ci.module.name.startswith('yaql.language')]
+            if len(cands) == 1:
+                callee = cands[0]
+        else:
+            d = repo.resolve(mod, f, model.scope_locals(fi))
+            t = repo.lookup(d) if d else None
+            if isinstance(t, model.FuncInfo):
+                callee = t
+        if callee is None:
+            continue
+        names = callee.params()
+        if callee.is_method:
+            names = names[1:]
+        for i, a in enumerate(call.args):
+            if not isinstance(a, ast.Name) or a.id in assigned:
+                continue
+            if i >= len(names):
+                continue
+            pname = names[i]
+            mutated = pname in eff.mut.get(callee.key, ())
+            rep.ob('R06d', '%s/loop[%s]/%s(%s)' % (fi.key, label,
+                                                   callee.name, pname),
+                   not mutated,
+                   '%s() is called for every overload the set enumerates '
+                   'and writes through its parameter `%s`, to which the '
+                   'same object `%s` is passed each time: the candidate '
+                   'enumerated first consumes/changes it and decides what '
+                   'the later candidates see' % (callee.name, pname, a.id),
+                   loc=mod.loc(call), construct=model.norm(call)[:120])
+
+
 def check_uses(repo, rep, fi, taint):
     """R06c: order-tainted lists are only used order-insensitively."""
     mod = fi.module
@@ -524,6 +578,8 @@ def run(repo, rep):
              'order-insensitive forms (accumulation, all-equal idiom with '
              'a pure initialising branch, monotone flags); no running '
              'winner, no exit that depends on one, one failure kind')
+    rep.rule('R06d', 'functions called per element of an unordered set do '
+             'not write through loop-invariant arguments (args, kwargs)')
     rep.rule('R06c', 'order-tainted lists are used only '
              'order-insensitively (len/all/any/set/membership/full '
              'iteration); positional access needs a dominating '
@@ -573,6 +629,10 @@ def run(repo, rep):
            'cannot establish that choose_overload\'s candidates are the '
            'layers returned by collect_functions', loc=runner.loc(
                callf.node))
+    from sa import universe as unimod
+    from sa.rules import c09
+    uni = unimod.Universe(repo)
+    eff = c09.Effects(repo, uni)
     nloops = 0
     for fi, seeds in targets:
         t = Taint(repo, fi, seeds)
@@ -582,6 +642,7 @@ def run(repo, rep):
             if outer is not None:
                 label = '%s<-%s' % (label, model.norm(outer.iter))
             analyse_loop(repo, rep, fi, loop, label)
+            check_loop_calls(repo, rep, fi, loop, label, eff)
         check_uses(repo, rep, fi, t)
     rep.count(unordered_loops=nloops, functions=len(targets))
     rep.floor('loops over unordered values on the resolution path',
